@@ -442,6 +442,14 @@ def r205(ctx, rid="R-20.5"):
                     construct=short(S.stmt, 70))
         else:
             ctx.ok(rid, S.stmt, "every velocity array that reaches system.vel (parameter or re-read) passes the vel_rev-conditional negation")
+        # the store (and with it the sign flip) happens whenever velocities are there: its only guards are None tests
+        for e, truth, bn in cfg.guards(S.at):
+            txt = ast.unparse(e)
+            none_test = isinstance(e, ast.Compare) and len(e.ops) == 1 and isinstance(e.ops[0], (ast.Is, ast.IsNot)) and isinstance(e.comparators[0], ast.Constant) and e.comparators[0].value is None
+            if none_test:
+                continue
+            if (vname and any(isinstance(x, ast.Name) and x.id == vname for x in ast.walk(e))) or "system.vel" in txt.replace("system.vel_rev", ""):
+                ctx.bad(rid, S.stmt, f"the store to system.vel - and with it the vel_rev sign flip - is skipped when `{txt}` is {not truth}: for a caller that passes the system's own velocity array (GromacsEngine._propagate_from stores system.vel = data['v'] and passes it) velocity-type order parameters keep their sign under velocity reversal, and the result depends on whether the caller passes the array or an equal copy", construct=f"calculate_order: flip guarded by {txt}")
 
 
 def r203(ctx, classes):
@@ -766,6 +774,7 @@ def run(ctx):
 
 
 VARIANTS = [
+    B("c20-flip-skipped-for-own-velocities", ENGBASE, "        if vel is not None:\n            system.vel = vel * -1.0 if system.vel_rev else vel", "        if vel is not None and vel is not system.vel:\n            system.vel = vel * -1.0 if system.vel_rev else vel", "R-20.5", control=True, why="seeded C20_k"),
     K("c20-keep-puckering-displacements-comprehension", ORDERP, "        z = np.zeros(6)\n        for i in range(6):\n            z[i] = np.dot(pos[i, :], n)\n", "        z = np.array([np.dot(pos[i, :], n) for i in range(6)], dtype=float)\n"),
     B("c20-puckering-displacements-raw-component", ORDERP, "        z = np.zeros(6)\n        for i in range(6):\n            z[i] = np.dot(pos[i, :], n)\n", "        z = np.array([pos[i, 2] for i in range(6)], dtype=float)\n", "R-20.8"),
     B("c20-distance-absolute-position", ORDERP, "        delta = system.pos[self.index[1]] - system.pos[self.index[0]]\n        if self.periodic and system.box is not None:\n            box = np.array(system.box[:3])\n            delta = pbc_dist_coordinate(delta, box)\n        lamb = np.sqrt(np.dot(delta, delta))\n        return [lamb]", "        delta = system.pos[self.index[1]]\n        if self.periodic and system.box is not None:\n            box = np.array(system.box[:3])\n            delta = pbc_dist_coordinate(delta, box)\n        lamb = np.sqrt(np.dot(delta, delta))\n        return [lamb]", "R-20.8", control=True),
